@@ -75,11 +75,32 @@ func (fr *Frame) loopName(l *Loop) string {
 	return fmt.Sprintf("loop#%d:", l.ordinal)
 }
 
-func (fr *Frame) evalLoopInv(l *Loop, c *Clause, st *State) *Term {
+func (fr *Frame) evalLoopInv(l *Loop, c *Clause, st *State) (res *Term) {
 	ev := fr.evalCtx(st, fr.entry)
 	ev.at = l.header
 	ev.loopEntry = l.preState
-	return fr.safeEvalBool(ev, c)
+	// A loop invariant that names something the current code no longer has (a renamed or removed local) is STALE: it is
+	// reported once as a failed obligation of its own and otherwise contributes nothing (it is neither assumed nor
+	// does it stop the function from being executed), so that the function's other obligations - frame, call-site,
+	// post - are still generated and say what, if anything, is semantically wrong.
+	defer func() {
+		if r := recover(); r != nil {
+			if ee, ok := r.(evalErr); ok && strings.HasPrefix(ee.msg, "unknown identifier") {
+				key := fmt.Sprintf("%s:%d", c.File, c.Line)
+				if fr.fc.staleInv == nil {
+					fr.fc.staleInv = map[string]bool{}
+				}
+				if !fr.fc.staleInv[key] {
+					fr.fc.staleInv[key] = true
+					fr.fc.obligeUnassumed(st, "inv-stale", fr.path, TFalse, fr.fc.eng.fset.Position(l.header.Instrs[0].Pos()), fmt.Sprintf("loop invariant does not evaluate against the current code (%s): %s", ee.msg, c.Text))
+				}
+				res = TTrue
+				return
+			}
+			panic(r)
+		}
+	}()
+	return ev.evalBool(c.Expr)
 }
 
 func (fr *Frame) safeEvalBool(ev *EvalCtx, c *Clause) (res *Term) {
